@@ -5,6 +5,7 @@ import langcheck
 import langlib
 
 LEVEL = "model_checking"
+COMPILES_PROGRAMS = True      # check reports mlang.Compile's long-lived-compiler comparison (vlib.report_compiler_reuse)
 META = {
     "text": "MtailLang.tla carries the timestamp register (unset | settime(n) | strptime instant) and stamps every datum update with it; the "
             "strptime table ParseTab (layout x value -> instant id | fail) is checked entry by entry against time.Parse, and its concrete "
